@@ -81,6 +81,9 @@ type Obj struct {
 	// Post, when set, is what a CALLER does to the parsed object before linting it (e.g. dropping an index the parser
 	// built); it is applied again to every fresh parse Reparse hands out.
 	Post func(*Obj)
+
+	parsedDate    time.Time
+	hasParsedDate bool
 }
 
 // ParseObj parses der as kind; nil when the parser rejects it or panics
@@ -112,6 +115,9 @@ func ParseObj(kind corpus.Kind, name string, b []byte) (o *Obj, parserPanic bool
 		}
 		o.OCSP = c
 	}
+	// the object's date is what the PARSER read from the bytes; it is remembered here so that a lint that rewrites
+	// the parsed object's date fields cannot move the instant the window oracle judges against
+	o.parsedDate, o.hasParsedDate = o.liveDate(), true
 	return o, false
 }
 
@@ -125,8 +131,19 @@ func (o *Obj) Reparse() *Obj {
 	return n
 }
 
-// Date is the instant the effective window is judged on.
+// Date is the instant the effective window is judged on (as read by the parser, see ParseObj).
 func (o *Obj) Date() time.Time {
+	if o.hasParsedDate {
+		return o.parsedDate
+	}
+	return o.liveDate()
+}
+
+// DateEdited tells the object that the HARNESS (playing a caller who holds the parsed object) changed its date field in
+// memory on purpose: from now on that is the object's date.
+func (o *Obj) DateEdited() { o.parsedDate, o.hasParsedDate = o.liveDate(), true }
+
+func (o *Obj) liveDate() time.Time {
 	switch o.Kind {
 	case corpus.Cert:
 		return o.Cert.NotBefore
